@@ -201,8 +201,24 @@ func loadRuntimeUnit() (*Unit, []string, error) {
 		"modifies Elems.DT_token at b where false")}
 	u.OpaquePreds = map[string]bool{}
 	u.TrustedExt["fmt.Sprintf"] = &ExtSpec{Key: "fmt.Sprintf", Params: []string{"format"}}
-	u.TrustedExt["strconv.Quote"] = &ExtSpec{Key: "strconv.Quote", Params: []string{"s"}}
-	keys := []string{"tokens.Add", "tokens.Trim", "Init.add", "Init.matchDot", "translatePositions", "Init.reset", "Init.parse", "parseError.Error", "Init.memoize", "Init.memoizedResult", "tokens.Tokens", gp.structName() + ".Execute"}
+	// strconv.Quote is a function of its argument (quoteOf is an uninterpreted spec function): nothing else is assumed
+	u.TrustedExt["strconv.Quote"] = &ExtSpec{Key: "strconv.Quote", Params: []string{"s"}, Contract: mkContract("strconv.Quote",
+		"ensures result == quoteOf(s)")}
+	// output model of the syntax tree printers: every fmt.Fprint / fmt.Fprintf call appends one record (writer, format,
+	// first operand, second operand) to the ghost output log outW/outFmt/outA/outB (length outN) and touches no program
+	// state. Fprint has no format: its record has the empty format. (Assumed contracts; they are used by node.print only.)
+	outLog := []string{
+		"ensures outN == old(outN) + 1 && outW == put(old(outW), old(outN), w)",
+		"modifies var outN, outW, outFmt, outA, outB"}
+	u.TrustedExt["fmt.Fprint"] = &ExtSpec{Key: "fmt.Fprint", Params: []string{"w"}, Contract: mkContract("fmt.Fprint", append(outLog,
+		"ensures outFmt == put(old(outFmt), old(outN), \"\") && outA == put(old(outA), old(outN), va0) && outB == put(old(outB), old(outN), \"\")")...)}
+	u.TrustedExt["fmt.Fprintf"] = &ExtSpec{Key: "fmt.Fprintf", Params: []string{"w", "format"}, Contract: mkContract("fmt.Fprintf", append(outLog,
+		"ensures outFmt == put(old(outFmt), old(outN), format) && outA == put(old(outA), old(outN), va0) && outB == put(old(outB), old(outN), va1)")...)}
+	// (*bytes.Buffer).String: unconstrained result, nothing modified
+	u.TrustedExt["(bytes.Buffer).String"] = &ExtSpec{Key: "(bytes.Buffer).String"}
+	keys := []string{"tokens.Add", "tokens.Trim", "Init.add", "Init.matchDot", "translatePositions", "Init.reset", "Init.parse", "parseError.Error", "Init.memoize", "Init.memoizedResult", "tokens.Tokens", gp.structName() + ".Execute",
+		"tokens.AST", "print.printFunc", "node.print", "node.Print", "node.PrettyPrint", "tokens.PrintSyntaxTree", "tokens.WriteSyntaxTree", "tokens.PrettyPrintSyntaxTree",
+		gp.structName() + ".PrintSyntaxTree", gp.structName() + ".WriteSyntaxTree", gp.structName() + ".SprintSyntaxTree"}
 	return u, keys, nil
 }
 
